@@ -212,7 +212,7 @@ def _has_temporal_sub(v):
 def _standalone_instance(rng, node, built):
     """the instance of a nested class that is dumped on its own first.  Kept out for now: values of proper subclasses of
     date / datetime - the hook cached for the subclass on first sight survives the later TIMESTAMP re-binding of the class
-    (genuine defect of the unchanged library, /tmp/ag/A/findings/stale-subtype-hook-after-timestamp-bind.py)."""
+    (genuine defect of the unchanged library, findings/stale-subtype-hook-after-timestamp-bind.py)."""
     for _ in range(4):
         y = gen.gen_instance(rng, node, built)
         if not _has_temporal_sub(y):
